@@ -755,6 +755,13 @@ func (e *SpecEnv) evalCall(n ECall) Val {
 			return Val{T: x.T, S: sInt, G: tt}
 		}
 		return g.convert(x, ft, tt, e.st)
+	case "str":
+		// str(b): the string with the bytes of slice b (same term as the Go conversion string(b))
+		x := arg(0)
+		if x.S.K == KStr {
+			return x
+		}
+		return g.convert(x, types.NewSlice(types.Typ[types.Uint8]), types.Typ[types.String], e.st)
 	case "aligned":
 		g.declareFun("aligned", "(Int Int) Bool")
 		x, d := g.coerce(arg(0), sInt, nil), g.coerce(arg(1), sInt, nil)
